@@ -3,12 +3,13 @@ NEXT Next
 CONSTANTS
   NP = 3
   NS = 2
-  NB = 2
+  NB = 3
   MaxDepth = 40
   UseSystematic = FALSE
   UsePreludes = TRUE
   WKey = 10
   WEnv = 12
   WLoad = 2
+  WSig = 6
   WDecode = 4
 CHECK_DEADLOCK FALSE
